@@ -58,7 +58,8 @@ FASTOR_INLINE Tensor<T,I,J> solve(const Tensor<T,I,I> &A, const Tensor<T,I,J> &B
     pivot_inplace(A,p);
     auto tmp(apply_pivot(A,p));
     Tensor<T,I,I> invA = inverse<InvCompType::SimpleInv>(tmp);
-    return matmul(reconstruct(invA,p),B);
+    // {A}^(-1) = {P*A}^(-1) * P: post multiply, i.e. permute the columns as in the single right hand side overload
+    return matmul(reconstruct_colwise(invA,p),B);
 }
 
 
